@@ -16,6 +16,7 @@ import (
 	"go/build"
 	"go/format"
 	"go/parser"
+	"go/printer"
 	"go/token"
 	"os"
 	"path/filepath"
@@ -209,7 +210,11 @@ func main() {
 					continue
 				}
 			}
-			src, changed := rewriteFile(f, swaps[d], fields, pkgVars)
+			every := ""
+			if *wide && fields != nil {
+				every = d
+			}
+			src, changed := rewriteFile(f, swaps[d], fields, pkgVars, every)
 			if !changed {
 				continue
 			}
@@ -444,7 +449,7 @@ func must(err error) {
 }
 
 // rewriteFile swaps imports and (optionally) instruments plain accesses.
-func rewriteFile(path string, swap map[string]string, fields, pkgVars map[string]bool) ([]byte, bool) {
+func rewriteFile(path string, swap map[string]string, fields, pkgVars map[string]bool, everyStmt string) ([]byte, bool) {
 	fset := token.NewFileSet()
 	f, err := parser.ParseFile(fset, path, nil, parser.ParseComments)
 	must(err)
@@ -465,8 +470,24 @@ func rewriteFile(path string, swap map[string]string, fields, pkgVars map[string
 		changed = true
 	}
 	if fields != nil {
-		if instrumentAccesses(fset, f, fields, pkgVars) {
+		if instrumentAccesses(fset, f, fields, pkgVars, everyStmt) {
 			changed = true
+			// comments inside function bodies are printed at unpredictable places once statements
+			// without positions are inserted next to them (a `/* #nosec */` ended up inside a
+			// generated call): only directives (//go:..., build constraints) are kept
+			var keep []*ast.CommentGroup
+			for _, g := range f.Comments {
+				dir := false
+				for _, c := range g.List {
+					if strings.HasPrefix(c.Text, "//go:") || strings.HasPrefix(c.Text, "// +build") || strings.HasPrefix(c.Text, "//line ") {
+						dir = true
+					}
+				}
+				if dir {
+					keep = append(keep, g)
+				}
+			}
+			f.Comments = keep
 		}
 	}
 	if !changed {
@@ -475,7 +496,12 @@ func rewriteFile(path string, swap map[string]string, fields, pkgVars map[string
 	var buf bytes.Buffer
 	// line directives keep panics and race reports pointing at the real file
 	fmt.Fprintf(&buf, "//line %s:1\n", path)
-	must(format.Node(&buf, fset, f))
+	if err := format.Node(&buf, fset, f); err != nil {
+		var raw bytes.Buffer
+		_ = printer.Fprint(&raw, fset, f)
+		_ = os.WriteFile("/dev/shm/overlaygen-failed.go", raw.Bytes(), 0o644)
+		fatal("%s: %v", path, err)
+	}
 	return buf.Bytes(), true
 }
 
